@@ -56,4 +56,306 @@ theorem pcInv_congr {s s' : St} (q : Pc) (h1 : s'.count = s.count) (h2 : s'.allo
     pcInv s' q ↔ pcInv s q := by
   cases q <;> simp [pcInv, h1, h2, h3, h4, h5]
 
+/-- a step that changes no data read by the invariant: only `t`'s pc (and possibly locks, sink) -/
+theorem dataInv_of_move {s s' : St} {t : Tid} {p' : Pc} (h : DataInv s)
+    (hpc : s'.pc = upd s.pc t p') (h1 : s'.count = s.count) (h2 : s'.allocated = s.allocated)
+    (h3 : s'.pub = s.pub) (h4 : s'.reg = s.reg) (h6 : s'.stopDone = s.stopDone)
+    (h5 : ∀ k, (s'.hs k).stopped = (s.hs k).stopped ∧ (s'.hs k).stops = (s.hs k).stops)
+    (hnew : pcInv s p') (hp : pendingId p' = none ∨ pendingId p' = pendingId (s.pc t)) : DataInv s' := by
+  have stp : ∀ k, (s'.hs k).stopped = (s.hs k).stopped := fun k => (h5 k).1
+  have sts : ∀ k, (s'.hs k).stops = (s.hs k).stops := fun k => (h5 k).2
+  refine ⟨?_, ?_, ?_, ?_, ?_, ?_, ?_, ?_, ?_, ?_, ?_⟩
+  · rw [h2]; exact h.g1
+  · rw [h2, h1]; exact h.g2
+  · rw [h3, h2]; exact h.g3
+  · rw [h4, h3]; exact h.g4
+  · rw [h4]; exact h.g5
+  · intro k hk; rw [h3] at hk; rw [stp, sts]; exact h.g6 k hk
+  · intro k hk; rw [h4] at hk; rw [stp, sts]; exact h.g7 k hk
+  · intro k; rw [stp, sts]; exact h.g8 k
+  · intro k hk; rw [h6] at hk; rw [h4, h3, stp, sts]; exact h.g9 k hk
+  · intro a b n hab ha hb
+    rw [hpc] at ha hb
+    by_cases ea : a = t
+    · subst ea
+      have eb : b ≠ a := fun e => hab e.symm
+      simp [eb] at ha hb
+      rcases hp with hp | hp
+      · rw [hp] at ha; cases ha
+      · rw [hp] at ha; exact h.g10 a b n hab ha hb
+    · by_cases eb : b = t
+      · subst eb
+        simp [ea] at ha hb
+        rcases hp with hp | hp
+        · rw [hp] at hb; cases hb
+        · rw [hp] at hb; exact h.g10 a b n hab ha hb
+      · simp [ea, eb] at ha hb; exact h.g10 a b n hab ha hb
+  · intro u
+    rw [hpc]
+    by_cases e : u = t
+    · subst e; simp; exact (pcInv_congr p' h1 h2 h3 h4 h5).mpr hnew
+    · simp [e]; exact (pcInv_congr _ h1 h2 h3 h4 h5).mpr (h.pcs u)
+
+theorem pend_alloc {s : St} {p : Pc} {n : Hid} (h : pcInv s p) (hp : pendingId p = some n) :
+    n ∈ s.allocated ∧ n ∉ s.pub := by
+  cases p <;> simp [pendingId] at hp <;> subst hp <;> simp [pcInv] at h <;> simp [h]
+
+/-- two different threads cannot both be in core-holding program counters -/
+theorem core_excl {s : St} (hl : LockInv s) {t u : Tid} (ht : holdsCore (s.pc t) = true)
+    (hu : holdsCore (s.pc u) = true) : u = t := by
+  have a := hl.c1 t ht; have b := hl.c1 u hu
+  rw [a] at b; exact (Option.some.inj b).symm
+
+theorem h_excl {s : St} (hl : LockInv s) {t u : Tid} {x : Hid} (ht : holdsH (s.pc t) = some x)
+    (hu : holdsH (s.pc u) = some x) : u = t := by
+  have a := hl.h1 t x ht; have b := hl.h1 u x hu
+  rw [a] at b; exact (Option.some.inj b).symm
+
+/-- (a) `count += 1` in add() -/
+theorem dataInv_wCount {s s' : St} {t : Tid} {n : Hid} (hl : LockInv s) (h : DataInv s)
+    (hold : s.pc t = .a3 n) (hpc : s'.pc = upd s.pc t (.a4 n)) (h1 : s'.count = s.count + 1)
+    (h2 : s'.allocated = n :: s.allocated) (h3 : s'.pub = s.pub) (h4 : s'.reg = s.reg)
+    (h6 : s'.stopDone = s.stopDone) (h5 : s'.hs = s.hs) : DataInv s' := by
+  have hn : n = s.count := by have := h.pcs t; rw [hold] at this; simpa [pcInv] using this
+  have fresh : n ∉ s.allocated := fun hm => by have := h.g2 n hm; rw [hn] at this; exact Nat.lt_irrefl _ this
+  have tcore : holdsCore (s.pc t) = true := by rw [hold]; rfl
+  refine ⟨?_, ?_, ?_, ?_, ?_, ?_, ?_, ?_, ?_, ?_, ?_⟩
+  · rw [h2]; exact List.nodup_cons.mpr ⟨fresh, h.g1⟩
+  · intro a ha; rw [h2] at ha; rw [h1]
+    rcases List.mem_cons.mp ha with e | e
+    · rw [e, hn]; exact Nat.lt_succ_self _
+    · exact Nat.lt_succ_of_lt (h.g2 a e)
+  · intro k hk; rw [h3] at hk; rw [h2]; exact List.mem_cons_of_mem _ (h.g3 k hk)
+  · rw [h4, h3]; exact h.g4
+  · rw [h4]; exact h.g5
+  · intro k hk; rw [h3] at hk; rw [h5]; exact h.g6 k hk
+  · intro k hk; rw [h4] at hk; rw [h5]; exact h.g7 k hk
+  · intro k; rw [h5]; exact h.g8 k
+  · intro k hk; rw [h6] at hk; rw [h4, h3, h5]; exact h.g9 k hk
+  · intro a b m hab ha hb
+    rw [hpc] at ha hb
+    by_cases ea : a = t
+    · subst ea
+      have eb : b ≠ a := fun e => hab e.symm
+      simp [eb, pendingId] at ha hb
+      subst ha
+      exact fresh (pend_alloc (h.pcs b) hb).1
+    · by_cases eb : b = t
+      · subst eb
+        simp [ea, pendingId] at ha hb
+        subst hb
+        exact fresh (pend_alloc (h.pcs a) ha).1
+      · simp [ea, eb] at ha hb; exact h.g10 a b m hab ha hb
+  · intro u
+    rw [hpc]
+    by_cases e : u = t
+    · subst e; simp [pcInv, h2, h3]; exact fun hm => fresh (h.g3 n hm)
+    · simp [e]
+      have hu := h.pcs u
+      have nc : holdsCore (s.pc u) = false := by
+        cases hc : holdsCore (s.pc u)
+        · rfl
+        · exact absurd (core_excl hl tcore hc) e
+      cases hq : s.pc u <;> rw [hq] at hu nc <;> simp [pcInv, holdsCore, h1, h2, h3, h4, h5] at hu nc ⊢ <;>
+        (try exact hu) <;> (try (simp [hu]; done))
+
+theorem not_holdsCore_of_ne {s : St} (hl : LockInv s) {t u : Tid} (ht : holdsCore (s.pc t) = true)
+    (e : u ≠ t) : holdsCore (s.pc u) = false := by
+  cases hc : holdsCore (s.pc u)
+  · rfl
+  · exact absurd (core_excl hl ht hc) e
+
+/-- (b) add() publishes the extended registry -/
+theorem dataInv_addPublish {s s' : St} {t : Tid} {n : Hid} {ids : List Hid} (hl : LockInv s) (h : DataInv s)
+    (hold : s.pc t = .a7 n ids) (hpc : s'.pc = upd s.pc t (.a8 n)) (h1 : s'.count = s.count)
+    (h2 : s'.allocated = s.allocated) (h3 : s'.pub = n :: s.pub) (h4 : s'.reg = ids ++ [n])
+    (h6 : s'.stopDone = s.stopDone) (h5 : s'.hs = s.hs) : DataInv s' := by
+  have ht := h.pcs t
+  rw [hold] at ht
+  simp only [pcInv] at ht
+  obtain ⟨nal, npub, hids⟩ := ht
+  subst hids
+  have nreg : n ∉ s.reg := fun hm => npub (h.g4 n hm)
+  have tcore : holdsCore (s.pc t) = true := by rw [hold]; rfl
+  refine ⟨?_, ?_, ?_, ?_, ?_, ?_, ?_, ?_, ?_, ?_, ?_⟩
+  · rw [h2]; exact h.g1
+  · rw [h2, h1]; exact h.g2
+  · intro k hk; rw [h3] at hk; rw [h2]
+    rcases List.mem_cons.mp hk with e | e
+    · rw [e]; exact nal
+    · exact h.g3 k e
+  · intro k hk; rw [h4] at hk; rw [h3]
+    rcases List.mem_append.mp hk with e | e
+    · exact List.mem_cons_of_mem _ (h.g4 k e)
+    · simp at e; rw [e]; exact List.mem_cons_self
+  · rw [h4]; exact List.nodup_append.mpr ⟨h.g5, by simp, by
+      intro a ha b hb; simp at hb; subst hb; exact fun e => nreg (e ▸ ha)⟩
+  · intro k hk; rw [h3] at hk; rw [h5]
+    exact h.g6 k (fun hm => hk (List.mem_cons_of_mem _ hm))
+  · intro k hk; rw [h4] at hk; rw [h5]
+    rcases List.mem_append.mp hk with e | e
+    · exact h.g7 k e
+    · simp at e; rw [e]; exact h.g6 n npub
+  · intro k; rw [h5]; exact h.g8 k
+  · intro k hk; rw [h6] at hk; rw [h4, h3, h5]
+    obtain ⟨a, b, c, d⟩ := h.g9 k hk
+    refine ⟨?_, List.mem_cons_of_mem _ b, c, d⟩
+    intro hm
+    rcases List.mem_append.mp hm with e | e
+    · exact a e
+    · simp at e; exact npub (e ▸ b)
+  · intro a b m hab ha hb
+    rw [hpc] at ha hb
+    by_cases ea : a = t
+    · subst ea; simp [pendingId] at ha
+    · by_cases eb : b = t
+      · subst eb; simp [pendingId] at hb
+      · simp [ea, eb] at ha hb; exact h.g10 a b m hab ha hb
+  · intro u
+    rw [hpc]
+    by_cases e : u = t
+    · subst e; simp [pcInv]
+    · simp [e]
+      have hu := h.pcs u
+      have nc := not_holdsCore_of_ne hl tcore e
+      have g10 := h.g10 u t
+      cases hq : s.pc u <;> rw [hq] at hu nc g10 <;>
+        simp [pcInv, holdsCore, pendingId, hold, h1, h2, h3, h4, h5] at hu nc g10 ⊢ <;>
+        (try exact hu) <;> (try (simp [hu]; done)) <;> grind
+
+/-- (c) remove() publishes the reduced registry -/
+theorem dataInv_removePublish {s s' : St} {t : Tid} {x : Hid} {todo snap : List Hid}
+    (hl : LockInv s) (h : DataInv s)
+    (hold : s.pc t = .rC x todo snap) (hpc : s'.pc = upd s.pc t (.rP x todo)) (h1 : s'.count = s.count)
+    (h2 : s'.allocated = s.allocated) (h3 : s'.pub = s.pub) (h4 : s'.reg = snap.erase x)
+    (h6 : s'.stopDone = s.stopDone) (h5 : s'.hs = s.hs) : DataInv s' := by
+  have ht := h.pcs t
+  rw [hold] at ht
+  simp only [pcInv] at ht
+  obtain ⟨hsnap, xreg, xtodo, tsub, tnd⟩ := ht
+  subst hsnap
+  have tcore : holdsCore (s.pc t) = true := by rw [hold]; rfl
+  have sub : ∀ k, k ∈ s.reg.erase x → k ∈ s.reg := fun k hk => List.mem_of_mem_erase hk
+  have xout : x ∉ s.reg.erase x := fun hm => by
+    have := (List.Nodup.mem_erase_iff h.g5).mp hm; exact this.1 rfl
+  refine ⟨?_, ?_, ?_, ?_, ?_, ?_, ?_, ?_, ?_, ?_, ?_⟩
+  · rw [h2]; exact h.g1
+  · rw [h2, h1]; exact h.g2
+  · rw [h3, h2]; exact h.g3
+  · intro k hk; rw [h4] at hk; rw [h3]; exact h.g4 k (sub k hk)
+  · rw [h4]; exact h.g5.erase x
+  · intro k hk; rw [h3] at hk; rw [h5]; exact h.g6 k hk
+  · intro k hk; rw [h4] at hk; rw [h5]; exact h.g7 k (sub k hk)
+  · intro k; rw [h5]; exact h.g8 k
+  · intro k hk; rw [h6] at hk; rw [h4, h3, h5]
+    obtain ⟨a, b, c, d⟩ := h.g9 k hk
+    exact ⟨fun hm => a (sub k hm), b, c, d⟩
+  · intro a b m hab ha hb
+    rw [hpc] at ha hb
+    by_cases ea : a = t
+    · subst ea; simp [pendingId] at ha
+    · by_cases eb : b = t
+      · subst eb; simp [pendingId] at hb
+      · simp [ea, eb] at ha hb; exact h.g10 a b m hab ha hb
+  · intro u
+    rw [hpc]
+    by_cases e : u = t
+    · subst e
+      simp only [upd_same, pcInv, h4, h3, h5]
+      refine ⟨xout, h.g4 x xreg, (h.g7 x xreg).1, (h.g7 x xreg).2, ?_, tnd⟩
+      intro k hk
+      exact (List.Nodup.mem_erase_iff h.g5).mpr ⟨fun e => xtodo (e ▸ hk), tsub k hk⟩
+    · simp [e]
+      have hu := h.pcs u
+      have nc := not_holdsCore_of_ne hl tcore e
+      cases hq : s.pc u <;> rw [hq] at hu nc <;>
+        simp [pcInv, holdsCore, h1, h2, h3, h4, h5] at hu nc ⊢ <;>
+        (try exact hu) <;> (try (simp [hu]; done)) <;> grind
+
+/-- frame for steps that change `stopped`/`stops` of ONE handler `x` under the core lock and `x`'s lock -/
+theorem pcInv_other_handler {s s' : St} {x : Hid} (q : Pc) (h1 : s'.count = s.count)
+    (h2 : s'.allocated = s.allocated) (h3 : s'.pub = s.pub) (h4 : s'.reg = s.reg)
+    (h5 : ∀ k, k ≠ x → s'.hs k = s.hs k) (nc : holdsCore q = false) (nh : holdsH q ≠ some x)
+    (hq : pcInv s q) : pcInv s' q := by
+  cases q <;> simp [pcInv, holdsCore, holdsH, h1, h2, h3, h4] at hq nc nh ⊢ <;>
+    (try exact hq) <;> (try (rw [h5 _ nh]; exact hq)) <;> (try (rw [h5 _ (Ne.symm nh)]; exact hq))
+
+/-- (d)(e) `_stopped = True` and `sink.stop()` in Handler.stop, and (f) its return -/
+theorem dataInv_stopStep {s s' : St} {t : Tid} {x : Hid} {p' : Pc}
+    (hl : LockInv s) (h : DataInv s) (tcore : holdsCore (s.pc t) = true) (th : holdsH (s.pc t) = some x)
+    (hpc : s'.pc = upd s.pc t p') (h1 : s'.count = s.count)
+    (h2 : s'.allocated = s.allocated) (h3 : s'.pub = s.pub) (h4 : s'.reg = s.reg)
+    (h5 : ∀ k, k ≠ x → s'.hs k = s.hs k)
+    (xreg : x ∉ s.reg) (xpub : x ∈ s.pub)
+    (hx8 : (s'.hs x).stops ≤ 1 ∧ ((s'.hs x).stops = 1 → (s'.hs x).stopped = true))
+    (hdone : ∀ k ∈ s'.stopDone, k ∈ s.stopDone ∨
+      (k = x ∧ (s'.hs x).stopped = true ∧ (s'.hs x).stops = 1))
+    (hx9 : x ∈ s.stopDone → (s'.hs x).stopped = true ∧ (s'.hs x).stops = 1)
+    (hnew : pcInv s' p') (hp : pendingId p' = none) : DataInv s' := by
+  refine ⟨?_, ?_, ?_, ?_, ?_, ?_, ?_, ?_, ?_, ?_, ?_⟩
+  · rw [h2]; exact h.g1
+  · rw [h2, h1]; exact h.g2
+  · rw [h3, h2]; exact h.g3
+  · rw [h4, h3]; exact h.g4
+  · rw [h4]; exact h.g5
+  · intro k hk; rw [h3] at hk
+    have : k ≠ x := fun e => hk (e ▸ xpub)
+    rw [h5 k this]; exact h.g6 k hk
+  · intro k hk; rw [h4] at hk
+    have : k ≠ x := fun e => xreg (e ▸ hk)
+    rw [h5 k this]; exact h.g7 k hk
+  · intro k
+    by_cases e : k = x
+    · subst e; exact hx8
+    · rw [h5 k e]; exact h.g8 k
+  · intro k hk; rw [h4, h3]
+    rcases hdone k hk with old | ⟨e, a, b⟩
+    · by_cases e : k = x
+      · subst e; exact ⟨xreg, xpub, (hx9 old).1, (hx9 old).2⟩
+      · rw [h5 k e]; exact h.g9 k old
+    · subst e; exact ⟨xreg, xpub, a, b⟩
+  · intro a b m hab ha hb
+    rw [hpc] at ha hb
+    by_cases ea : a = t
+    · subst ea; simp [hp] at ha
+    · by_cases eb : b = t
+      · subst eb; simp [hp] at hb
+      · simp [ea, eb] at ha hb; exact h.g10 a b m hab ha hb
+  · intro u
+    rw [hpc]
+    by_cases e : u = t
+    · subst e; simpa using hnew
+    · simp [e]
+      have nc := not_holdsCore_of_ne hl tcore e
+      have nh : holdsH (s.pc u) ≠ some x := fun hu => e (h_excl hl th hu)
+      exact pcInv_other_handler _ h1 h2 h3 h4 h5 nc nh (h.pcs u)
+
+macro "dt_close" h:ident t:ident : tactic => `(tactic| first
+  | rfl
+  | assumption
+  | exact Or.inl rfl
+  | (apply Or.inr; simp only [*]; rfl)
+  | (intro k; first | exact ⟨rfl, rfl⟩ | (simp only [upd]; split <;> simp_all; done))
+  | (intro k hk; simp [upd, hk]; done)
+  | (have ht := ($h).pcs $t; have g4 := ($h).g4; have g5 := ($h).g5; have g7 := ($h).g7
+     have g9 := ($h).g9; have g8 := ($h).g8
+     simp_all [pcInv, holdsCore, holdsH, upd, pendingId, setPc]; done)
+  | (have ht := ($h).pcs $t; have g4 := ($h).g4; have g5 := ($h).g5; have g7 := ($h).g7
+     have g9 := ($h).g9; have g8 := ($h).g8
+     simp_all [pcInv, holdsCore, holdsH, upd, pendingId, setPc]; grind))
+
+theorem dataInv_step {s s' : St} {t : Tid} {lab : Lab} (hl : LockInv s) (h : DataInv s)
+    (hs : step s t lab = some s') : DataInv s' := by
+  unfold step at hs
+  split at hs <;> (try (simp only [reduceCtorEq] at hs; done)) <;> (repeat' split at hs) <;>
+    (try (simp only [reduceCtorEq] at hs; done)) <;>
+    (simp only [Option.some.injEq] at hs; subst hs; (try subst_vars)
+     first
+     | (refine dataInv_wCount hl h (by assumption) rfl rfl rfl rfl rfl rfl rfl; done)
+     | (refine dataInv_addPublish hl h (by assumption) rfl rfl rfl rfl rfl rfl rfl; done)
+     | (refine dataInv_removePublish hl h (by assumption) rfl rfl rfl rfl rfl rfl rfl; done)
+     | (refine dataInv_of_move h rfl rfl rfl rfl rfl rfl ?_ ?_ ?_ <;> dt_close h t)
+     | (refine dataInv_stopStep (x := (holdsH (s.pc t)).getD 0) hl h ?_ ?_ rfl rfl rfl rfl rfl
+          ?_ ?_ ?_ ?_ ?_ ?_ ?_ ?_ <;> dt_close h t))
+
 end Conc
